@@ -72,6 +72,26 @@ pub fn dd_table() -> Vec<(&'static str, u8, FDD)> {
         x -= r(b);
         x
     }));
+    // --- references whose sign was flipped without touching the digits (op 3: -a + b, 4: a + b via a - (-b), 5: -a - b)
+    t.push(("negRef+BD", 3, |a, b| (-r(a)) + b.clone()));
+    t.push(("negRef+&BD", 3, |a, b| (-r(a)) + b));
+    t.push(("negRef+Ref", 3, |a, b| (-r(a)) + r(b)));
+    t.push(("BD+=negRef(a)", 3, |a, b| {
+        let mut x = b.clone();
+        x += -r(a);
+        x
+    }));
+    t.push(("Ref-negRef", 4, |a, b| r(a) - (-r(b))));
+    t.push(("BD-negRef", 4, |a, b| a.clone() - (-r(b))));
+    t.push(("&BD-negRef", 4, |a, b| a - (-r(b))));
+    t.push(("BD-=negRef", 4, |a, b| {
+        let mut x = a.clone();
+        x -= -r(b);
+        x
+    }));
+    t.push(("negRef-BD", 5, |a, b| (-r(a)) - b.clone()));
+    t.push(("negRef-Ref", 5, |a, b| (-r(a)) - r(b)));
+    t.push(("absRef+absRef", 6, |a, b| r(a).abs() + r(b).abs()));
     // --- mul
     t.push(("BD*BD", 2, |a, b| a.clone() * b.clone()));
     t.push(("BD*&BD", 2, |a, b| a.clone() * b));
@@ -291,7 +311,7 @@ pub fn check_pair(c: &Pair) -> Verdict {
     if c.a.is_zero() || c.b.is_zero() {
         v.labels.push("has-zero");
     }
-    let expect = [ma.add(&mb), ma.sub(&mb), ma.mul(&mb)];
+    let expect = [ma.add(&mb), ma.sub(&mb), ma.mul(&mb), mb.sub(&ma), ma.add(&mb), ma.neg().sub(&mb), ma.abs().add(&mb.abs())];
     for (name, op, f) in dd_table() {
         let got = dec_of(&f(&a, &b));
         ensure!(v, got.eq_val(&expect[op as usize]), format!("C01/wrong-value:{}", name), "{}: got {} expected {}", name, got.show(), expect[op as usize].show());
@@ -546,7 +566,7 @@ pub fn run(ctx: &Ctx) {
         "pair",
         grid_total() * reps,
         false,
-        "gap in {0..45, 586..593, 607, 608, 1179, 1180, 4096, 10000} x 6x6 digit shapes x 4 sign pairs x 3 length classes; all 30 decimal overloads + unary + Sum per tuple",
+        "gap in {0..45, 586..593, 607, 608, 1179, 1180, 4096, 10000} x 6x6 digit shapes x 4 sign pairs x 3 length classes; all 41 decimal overloads (incl. sign-flipped and abs references) + unary + Sum per tuple",
         move |i| grid_case(i % grid_total(), seed.wrapping_add(i / grid_total())),
         check_pair,
     );
